@@ -822,6 +822,9 @@ void Adaptation::Icap::ModXact::parseIcapHead()
         break;
 
     case Http::scPartialContent:
+        // like 200 OK, a 206 must carry the adapted HTTP header; makeAdaptedBodyPipe() dereferences it
+        if (!validate200Ok())
+            throw TexcHere("Invalid ICAP Response");
         handle206PartialContent();
         break;
 
